@@ -4,6 +4,8 @@ passlib.utils.binary - binary data encoding/decoding/manipulation
 
 from __future__ import annotations
 
+import threading
+
 from base64 import (
     b32decode as _b32decode,
 )
@@ -835,15 +837,38 @@ class LazyBase64Engine(Base64Engine):
     def __init__(self, *args, **kwds):
         self._lazy_opts = (args, kwds)
 
+    #: lock serializing the (one-time) lazy initialization
+    _lazy_lock = threading.RLock()
+
     def _lazy_init(self):
-        args, kwds = self._lazy_opts
-        super().__init__(*args, **kwds)
-        del self._lazy_opts
-        self.__class__ = Base64Engine
+        # NOTE: a second thread making its first call while another one is still
+        #       initializing the engine must wait for it to finish.
+        with LazyBase64Engine._lazy_lock:
+            state = object.__getattribute__(self, "__dict__")
+            opts = state.get("_lazy_opts")
+            if opts is None:
+                # another thread completed the initialization while we waited
+                return
+            if state.get("_lazy_owner") == threading.get_ident():
+                # re-entered by the initializing thread itself
+                return
+            state["_lazy_owner"] = threading.get_ident()
+            try:
+                args, kwds = opts
+                Base64Engine.__init__(self, *args, **kwds)
+                self.__class__ = Base64Engine
+                del state["_lazy_opts"]
+            finally:
+                state.pop("_lazy_owner", None)
 
     def __getattribute__(self, attr):
-        if not attr.startswith("_"):
-            self._lazy_init()
+        if (
+            not attr.startswith("_")
+            and object.__getattribute__(self, "__dict__").get("_lazy_opts") is not None
+        ):
+            # NOTE: not ``self._lazy_init()`` -- another thread may just have
+            #       switched the class of this instance to Base64Engine.
+            LazyBase64Engine._lazy_init(self)
         return object.__getattribute__(self, attr)
 
 
